@@ -68,6 +68,8 @@ structure Rename where
 structure Cls where
   name : Str
   exported : Bool                       -- `getattr(ofxtools.models, name) is cls`
+  abstract : Bool                       -- mixed-case base class (`Aggregate`, `ElementList`, `TrnRq`, …), never instantiated by a tag
+  ancestors : List Nat                  -- indices of the other classes in the MRO (for `isinstance`)
   spec : List Attr
   optMutex : List (List Str)            -- what `cls.optionalMutexes` resolves to
   reqMutex : List (List Str)
